@@ -2,7 +2,11 @@
 
 package formatter
 
-import "golang.org/x/net/html"
+import (
+	"strings"
+
+	"golang.org/x/net/html"
+)
 
 // Verification hooks (build tag verif): the formatter's leaf functions, for the model correspondence.
 
@@ -19,3 +23,13 @@ func VerifNormalizeInlineText(s string) string { return normalizeInlineText(s) }
 
 // VerifSplitFrontmatter is splitFrontmatter.
 func VerifSplitFrontmatter(s string) (string, string) { return NewFormatter().splitFrontmatter(s) }
+
+// VerifFormatNodes is formatNode applied to each of the given (parsed) nodes in turn at the given depth.
+func VerifFormatNodes(nodes []*html.Node, depth int) string {
+	var buf strings.Builder
+	f := NewFormatter()
+	for _, n := range nodes {
+		f.formatNode(n, &buf, depth)
+	}
+	return buf.String()
+}
